@@ -1,21 +1,10 @@
-(* Positions 14 (e_retry) and 15 (e_early) of Spec.p_step on the model's own traces: REFUTED.
+(* Positions 14 (e_retry) and 15 (e_early) of Spec.p_step on the model's own traces.
 
-   The statement asked for,
-     forall cfg t0 evs, selectors_in_range (init cfg t0) evs -> fresh_calls [] evs -> bg_scripts_ok evs ->
-       learner_ids_unique evs -> causes_ok evs ->
-       panicked (snd (run (init cfg t0) evs)) \/ trace_sub [14] cfg t0 (model_trace cfg t0 evs) = true      (same with [15])
-   is false of the model.  The simulation invariant the proof needs -- for a worker w that holds the uncompleted task T,
-   an entry m_reissue[w] = (ops, n) that shares an operation with T has n = t_retry T -- is broken by a RE-ASSIGNMENT OF
-   THE SAME TASK TO THE SAME WORKER after an accepted failure report:
-
-     the model (Model.assign, like in_memory_build_queue.go "t.retryCount = 0" in the assignment) resets t_retry at every
-     assignment; the monitor of the final p_step (rereq / retry_step) restarts its count only when the stored operation list
-     shares no operation with the list of the task held -- and a task that is retried after a failure keeps its operations.
-     The rule of an earlier p_step that covered this (an accepted completion report clears m_reissue[w], "pm_clear") was
-     lost when the bookkeeping was rewritten to count re-requests.
-
-   rw5_evs (7 events, retry count 1, one size class; rw_evs of ProofsMonW.v with one re-request before the failure report and
-   one after the re-assignment):
+   HISTORY (first round, 2026-09-23).  With the p_step of that morning both positions were refuted by rw5_evs / rw6_evs below:
+   the model (Model.assign, like in_memory_build_queue.go "t.retryCount = 0" in the assignment) resets t_retry at every
+   assignment, while the monitor restarted m_reissue[w] only when the stored operation list shared no operation with the
+   list of the task held; a task that its learner retries after a worker-reported failure keeps its operations, so the
+   re-assignment to the same worker left the old count:
      0 register; 1 worker w parks; 2 Execute, learner 1 asks for one retry on failure: task 0 / operation 0 handed to w;
      3 the parked call is released: DExec                                   t_retry = 0   m_reissue[w] absent
      4 w asks again (idle): counted, told again                              t_retry = 1   m_reissue[w] = ([0], 1)
@@ -23,21 +12,20 @@
        size class and handed to the very call that reported: DExec          t_retry = 0   m_reissue[w] = ([0], 1)   <- drift
      6 w asks again (idle): the model counts 0 < 1 and tells it again        t_retry = 1   monitor: 1 re-request before
        this one >= limit 1: "C06:task-reissued-beyond-retry-limit".
-   rw6_evs = rw5_evs + one more re-request: the model has reached the limit and fails the task with INTERNAL; position 15
-   reads the drifted count 2 <> 1: "C06:task-failed-before-retry-limit".
-   Both histories satisfy every hypothesis of monitor_components_on_model and report no panic; on rw5_evs the other 21
-   positions accept every step.
+     7 (rw6_evs) one more re-request: the model fails the task at its limit (INTERNAL); position 15 read 2 <> 1:
+       "C06:task-failed-before-retry-limit".
+   (Then: k_task w = Some 0, t_retry (task 0) = 0, t_resp = None, operations [0], m_reissue[w] = ([0], 1) after six events.)
+   Spec.p_step was repaired (an accepted completion report deletes m_reissue[w]); both histories are now accepted by all
+   22 positions and kept here as regressions.
 
-   Second part of the file: the retry bookkeeping in isolation ([rb_run]: only rereq / retry_step / pc_early of ProofsMon1.v
-   over m_reissue; checked against p_components on the histories) with the candidate repair "a Synchronize event whose
-   completion report names the task the worker holds (rereq = None, state WCompleted) deletes m_reissue[w]": all six retry
-   histories (rw, rw2, rw3, rw4, rw5, rw6) are accepted.  This is evidence for the repair, not a proof. *)
+   SECOND ROUND.  Position 15 of that repaired p_step was refuted by rw7_evs (ProofsRetry3.v, which explains the mechanism:
+   the operation list of the held task is replaced completely between two re-requests); p_step was repaired again (entries
+   follow the task through every post dump) and rw7_evs is the third regression here: hypotheses, no panic, accepted. *)
 From Coq Require Import Lia.
-From VF Require Export Sched.ProofsMonW.
+From VF Require Export Sched.ProofsMonW Sched.ProofsRetry3.
 From VF Require Import Sched.Spec Sched.Corr Sched.ProofsStreams.
 Open Scope Z_scope.
 
-(* ---- the witnesses ------------------------------------------------------------------------------------------------------------------------------------- *)
 Definition rw5_evs : list (event * list (nat * wref)) :=
   [ (ERegister 0 (mkPK [] 0) [] 0 0 [1%N] 1, []);
     (EStartSync 1 (mkSync rw_w WIdle false) 2, []);
@@ -51,23 +39,17 @@ Definition rw6_evs : list (event * list (nat * wref)) := rw5_evs ++ [ (EStartSyn
 Definition mon_hyps (cfg : config) (t0 : Z) (evs : list (event * list (nat * wref))) : Prop :=
   selectors_in_range (init cfg t0) evs /\ fresh_calls [] evs /\ bg_scripts_ok evs /\ learner_ids_unique evs /\ causes_ok evs.
 
-Lemma rw5_hypotheses : mon_hyps rw3_cfg 0 rw5_evs.
-Proof.
-  split; [apply selectors_in_rangeb_sound; vm_compute; reflexivity|]. split; [cbn; intuition congruence|].
-  split; [apply bg_scripts_okb_sound; vm_compute; reflexivity|]. split; [apply learner_ids_uniqueb_sound; vm_compute; reflexivity|apply causes_okb_sound; vm_compute; reflexivity].
-Qed.
-Lemma rw6_hypotheses : mon_hyps rw3_cfg 0 rw6_evs.
-Proof.
-  split; [apply selectors_in_rangeb_sound; vm_compute; reflexivity|]. split; [cbn; intuition congruence|].
-  split; [apply bg_scripts_okb_sound; vm_compute; reflexivity|]. split; [apply learner_ids_uniqueb_sound; vm_compute; reflexivity|apply causes_okb_sound; vm_compute; reflexivity].
-Qed.
+Ltac hyps_by_computation :=
+  split; [apply selectors_in_rangeb_sound; vm_compute; reflexivity|]; split; [cbn; intuition congruence|];
+  split; [apply bg_scripts_okb_sound; vm_compute; reflexivity|]; split; [apply learner_ids_uniqueb_sound; vm_compute; reflexivity|apply causes_okb_sound; vm_compute; reflexivity].
 
-Lemma rw5_outputs : snd (run (init rw3_cfg 0) rw5_evs) =
-  [[ORet 0 0]; []; [OGhost GSelect; OMsg 2 0 3 None]; [OSync 1 (DExec 5 false 100 3 []) 14];
-   [OSync 3 (DExec 5 false 100 3 []) 15];
-   [OGhost (GFailed 1 false); OSync 4 (DExec 5 false 100 3 []) 16];
-   [OSync 5 (DExec 5 false 100 3 []) 17]].
-Proof. vm_compute. reflexivity. Qed.
+Lemma rw5_hypotheses : mon_hyps rw3_cfg 0 rw5_evs.
+Proof. hyps_by_computation. Qed.
+Lemma rw6_hypotheses : mon_hyps rw3_cfg 0 rw6_evs.
+Proof. hyps_by_computation. Qed.
+Lemma rw7_hypotheses : mon_hyps rw7_cfg 0 rw7_evs.
+Proof. hyps_by_computation. Qed.
+
 Lemma rw6_outputs : snd (run (init rw3_cfg 0) rw6_evs) =
   [[ORet 0 0]; []; [OGhost GSelect; OMsg 2 0 3 None]; [OSync 1 (DExec 5 false 100 3 []) 14];
    [OSync 3 (DExec 5 false 100 3 []) 15];
@@ -81,10 +63,16 @@ Lemma no_panic_in : forall os : list (list obs),
 Proof.
   intros os H [o [what [Ho Hw]]]. rewrite forallb_forall in H. specialize (H _ Ho). rewrite forallb_forall in H. specialize (H _ Hw). discriminate.
 Qed.
-Lemma rw5_no_panic : ~ panicked (snd (run (init rw3_cfg 0) rw5_evs)).
-Proof. rewrite rw5_outputs. apply no_panic_in. reflexivity. Qed.
 Lemma rw6_no_panic : ~ panicked (snd (run (init rw3_cfg 0) rw6_evs)).
 Proof. rewrite rw6_outputs. apply no_panic_in. reflexivity. Qed.
+Lemma rw7_no_panic : ~ panicked (snd (run (init rw7_cfg 0) rw7_evs)).
+Proof. rewrite rw7_outputs. apply no_panic_in. reflexivity. Qed.
+
+(* regressions: the repaired p_step accepts both histories of the first round, all 22 positions *)
+Lemma rw5_accepted : trace_ok rw3_cfg 0 (model_trace rw3_cfg 0 rw5_evs) = true.
+Proof. vm_compute. reflexivity. Qed.
+Lemma rw6_accepted : trace_ok rw3_cfg 0 (model_trace rw3_cfg 0 rw6_evs) = true.
+Proof. vm_compute. reflexivity. Qed.
 
 (* what one position of the monitor says at every step of a trace *)
 Fixpoint trace_comp_from (i : nat) (cfg : config) (t0 : Z) (m : mon) (pre : dump) (tr : list (event * list obs * dump)) : list string :=
@@ -101,93 +89,10 @@ Proof.
   rewrite IH, andb_true_r. reflexivity.
 Qed.
 
-Lemma rw5_retry_says : trace_comp 14 rw3_cfg 0 (model_trace rw3_cfg 0 rw5_evs) =
-  [""; ""; ""; ""; ""; ""; "C06:task-reissued-beyond-retry-limit"]%string.
+(* ---- second round: rw7_evs is accepted too; the entry now agrees with the model's counter ------------------------------------------------ *)
+Lemma rw7_accepted : trace_ok rw7_cfg 0 (model_trace rw7_cfg 0 rw7_evs) = true.
 Proof. vm_compute. reflexivity. Qed.
-Lemma rw5_rejected : trace_sub [14%nat] rw3_cfg 0 (model_trace rw3_cfg 0 rw5_evs) = false.
+Lemma rw7_entry :
+  aget wref_eqb rw7_w (m_reissue (fst (fold_left (fun (acc : mon * dump) x => let '(m, pre) := acc in let '(e, o, d) := x in (pm_final rw7_cfg pre d e o m, d))
+                                                  (model_trace rw7_cfg 0 (firstn 10 rw7_evs)) (mon0, empty_dump)))) = Some ([1%nat], 2%nat).
 Proof. vm_compute. reflexivity. Qed.
-(* nothing else complains about rw5_evs: the rejection is position 14's alone *)
-Lemma rw5_others_accept : trace_sub (seq 0 14 ++ seq 15 7) rw3_cfg 0 (model_trace rw3_cfg 0 rw5_evs) = true.
-Proof. vm_compute. reflexivity. Qed.
-(* the drift: after event 5 the model's task 0 is held by the worker with t_retry = 0, the monitor stores ([0], 1) *)
-Lemma rw5_drift :
-  let s := fst (run (init rw3_cfg 0) (firstn 6 rw5_evs)) in
-  k_task (get_worker s rw_w) = Some 0%nat /\ t_retry (get_task s 0%nat) = 0%nat /\ t_resp (get_task s 0%nat) = None /\ task_opids s 0%nat = [0%nat] /\
-  aget wref_eqb rw_w (m_reissue (fst (fold_left (fun (acc : mon * dump) x => let '(m, pre) := acc in let '(e, o, d) := x in (pm_final rw3_cfg pre d e o m, d))
-                                                  (model_trace rw3_cfg 0 (firstn 6 rw5_evs)) (mon0, empty_dump)))) = Some ([0%nat], 1%nat).
-Proof. vm_compute. repeat split; reflexivity. Qed.
-
-Lemma rw6_early_says : trace_comp 15 rw3_cfg 0 (model_trace rw3_cfg 0 rw6_evs) =
-  [""; ""; ""; ""; ""; ""; ""; "C06:task-failed-before-retry-limit"]%string.
-Proof. vm_compute. reflexivity. Qed.
-Lemma rw6_rejected : trace_sub [15%nat] rw3_cfg 0 (model_trace rw3_cfg 0 rw6_evs) = false.
-Proof. vm_compute. reflexivity. Qed.
-
-(* ---- the refutations ---------------------------------------------------------------------------------------------------------------------------------- *)
-Lemma monitor_retry_on_model_refuted :
-  exists cfg t0 evs, mon_hyps cfg t0 evs /\ ~ panicked (snd (run (init cfg t0) evs)) /\ trace_sub [14%nat] cfg t0 (model_trace cfg t0 evs) = false.
-Proof. exists rw3_cfg, 0, rw5_evs. exact (conj rw5_hypotheses (conj rw5_no_panic rw5_rejected)). Qed.
-Lemma monitor_early_on_model_refuted :
-  exists cfg t0 evs, mon_hyps cfg t0 evs /\ ~ panicked (snd (run (init cfg t0) evs)) /\ trace_sub [15%nat] cfg t0 (model_trace cfg t0 evs) = false.
-Proof. exists rw3_cfg, 0, rw6_evs. exact (conj rw6_hypotheses (conj rw6_no_panic rw6_rejected)). Qed.
-
-(* in the shape of the theorem that was asked for: it does not hold *)
-Lemma monitor_retry_on_model_false :
-  ~ (forall cfg t0 evs, selectors_in_range (init cfg t0) evs -> fresh_calls [] evs -> bg_scripts_ok evs -> learner_ids_unique evs -> causes_ok evs ->
-       panicked (snd (run (init cfg t0) evs)) \/ trace_sub [14%nat] cfg t0 (model_trace cfg t0 evs) = true).
-Proof.
-  intro H. destruct rw5_hypotheses as [A [B [C [D E]]]]. destruct (H rw3_cfg 0 rw5_evs A B C D E) as [Hp|Ht]; [exact (rw5_no_panic Hp)|].
-  rewrite rw5_rejected in Ht. discriminate.
-Qed.
-Lemma monitor_early_on_model_false :
-  ~ (forall cfg t0 evs, selectors_in_range (init cfg t0) evs -> fresh_calls [] evs -> bg_scripts_ok evs -> learner_ids_unique evs -> causes_ok evs ->
-       panicked (snd (run (init cfg t0) evs)) \/ trace_sub [15%nat] cfg t0 (model_trace cfg t0 evs) = true).
-Proof.
-  intro H. destruct rw6_hypotheses as [A [B [C [D E]]]]. destruct (H rw3_cfg 0 rw6_evs A B C D E) as [Hp|Ht]; [exact (rw6_no_panic Hp)|].
-  rewrite rw6_rejected in Ht. discriminate.
-Qed.
-
-(* ---- the retry bookkeeping in isolation, and a candidate repair ------------------------------------------------------------------------------ *)
-(* positions 14 and 15 read and write only m_reissue: run rereq / retry_step / pc_early alone.  [clear]: the candidate
-   repair -- a Synchronize event whose completion report names the task the worker holds deletes the worker's entry *)
-Definition rb_step (clear : bool) (cfg : config) (m : mon) (pre : dump) (e : event) (o : list obs) (post : dump) : mon * (string * string) :=
-  let rr := rereq pre e m in
-  let m1 := fst (retry_step cfg post e o rr m) in
-  let m2 := match rr, e with
-            | None, EStartSync _ a _ =>
-              match y_state a with
-              | WCompleted _ _ => if clear then m1 <| m_reissue := adel wref_eqb (y_worker a) (m_reissue m1) |> else m1
-              | _ => m1
-              end
-            | _, _ => m1
-            end in
-  (m2, (snd (retry_step cfg post e o rr m), pc_early cfg pre post rr)).
-Fixpoint rb_run (clear : bool) (cfg : config) (m : mon) (pre : dump) (tr : list (event * list obs * dump)) : list (string * string) :=
-  match tr with
-  | [] => []
-  | (e, o, d) :: tl => snd (rb_step clear cfg m pre e o d) :: rb_run clear cfg (fst (rb_step clear cfg m pre e o d)) d tl
-  end.
-Definition rb_accepts (clear : bool) (cfg : config) (t0 : Z) (evs : list (event * list (nat * wref))) : bool :=
-  forallb (fun x => String.eqb (fst x) "" && String.eqb (snd x) "") (rb_run clear cfg mon0 empty_dump (model_trace cfg t0 evs)).
-
-(* without the repair the isolated bookkeeping says what positions 14 and 15 of p_components say *)
-Lemma rb_faithful_on_witnesses :
-  rb_run false rw3_cfg mon0 empty_dump (model_trace rw3_cfg 0 rw6_evs) =
-  combine (trace_comp 14 rw3_cfg 0 (model_trace rw3_cfg 0 rw6_evs)) (trace_comp 15 rw3_cfg 0 (model_trace rw3_cfg 0 rw6_evs)) /\
-  rb_run false rw3_cfg mon0 empty_dump (model_trace rw3_cfg 0 rw4_evs) =
-  combine (trace_comp 14 rw3_cfg 0 (model_trace rw3_cfg 0 rw4_evs)) (trace_comp 15 rw3_cfg 0 (model_trace rw3_cfg 0 rw4_evs)) /\
-  rb_run false rw3_cfg mon0 empty_dump (model_trace rw3_cfg 0 rw3_evs) =
-  combine (trace_comp 14 rw3_cfg 0 (model_trace rw3_cfg 0 rw3_evs)) (trace_comp 15 rw3_cfg 0 (model_trace rw3_cfg 0 rw3_evs)) /\
-  rb_run false rw_cfg mon0 empty_dump (model_trace rw_cfg 0 rw_evs2) =
-  combine (trace_comp 14 rw_cfg 0 (model_trace rw_cfg 0 rw_evs2)) (trace_comp 15 rw_cfg 0 (model_trace rw_cfg 0 rw_evs2)).
-Proof. vm_compute. repeat split; reflexivity. Qed.
-
-Lemma rb_unrepaired_rejects : rb_accepts false rw3_cfg 0 rw5_evs = false /\ rb_accepts false rw3_cfg 0 rw6_evs = false.
-Proof. vm_compute. split; reflexivity. Qed.
-
-(* with the repair every retry history is accepted: the three regressions of PropertiesC06.v and the two new witnesses *)
-Lemma rb_repaired_accepts :
-  rb_accepts true rw_cfg 0 rw_evs = true /\ rb_accepts true rw_cfg 0 rw_evs2 = true /\
-  rb_accepts true rw3_cfg 0 rw3_evs = true /\ rb_accepts true rw3_cfg 0 rw4_evs = true /\
-  rb_accepts true rw3_cfg 0 rw5_evs = true /\ rb_accepts true rw3_cfg 0 rw6_evs = true.
-Proof. vm_compute. repeat split; reflexivity. Qed.
